@@ -63,19 +63,27 @@ for pid in sorted(seeds):
         v = m['checker_verdict']
         out.append(f"| {name} | {short(m.get('summary'), 170)} | {short(str(v.get('detected')), 230)} | `{short(str(v.get('by')), 150)}` |")
 out.append('')
-blind = after = nodet = 0
-for pid in seeds:
-    for name, m in seeds[pid]:
-        v = m['checker_verdict']
-        det = str(v.get('detected'))
-        t = (det + ' ' + str(v.get('by'))).lower()
-        if not det.startswith('yes'):
-            nodet += 1
-        elif re.search(r'missed|added after|written after|rule added|after this seed|undecided|first version', t):
-            after += 1
-        else:
-            blind += 1
-out.append(f'Tally: {blind + after + nodet} kept changes — {blind} reported blind, {after} reported only after a rule was added or repaired, {nodet} not detected by the property they were written for.\n')
+def tally(pred):
+    blind = after = nodet = 0
+    for pid in seeds:
+        for name, m in seeds[pid]:
+            if not pred(name):
+                continue
+            v = m['checker_verdict']
+            det = str(v.get('detected'))
+            t = (det + ' ' + str(v.get('by'))).lower()
+            if not det.startswith('yes'):
+                nodet += 1
+            elif re.search(r'missed|added after|written after|rule added|after this seed|undecided|first version', t):
+                after += 1
+            else:
+                blind += 1
+    return f'{blind + after + nodet} kept changes — {blind} reported blind, {after} reported only after a rule was added or repaired, {nodet} not detected by the property they were written for.'
+def rnd(name):
+    return 2 if re.search(r'_[3-9]$', name) else 1
+out.append('Tally, all rounds: ' + tally(lambda n: True) + '\n')
+out.append('Tally, round 1 (`_1`, `_2`: the obvious sites): ' + tally(lambda n: rnd(n) == 1) + '\n')
+out.append('Tally, round 2 (`_3`, `_4`: "less obvious sites", all run blind first): ' + tally(lambda n: rnd(n) == 2) + '\n')
 
 txt = '\n'.join(out)
 p = f'{V}/DESIGN.md'
